@@ -214,5 +214,24 @@ def inj_start_stage(stage_ref: str) -> Callable[[Run], None]:
     return f
 
 
+def inj_pause(user: str = "op") -> Callable[[Run], None]:
+    """Operator pause of a RUNNING workflow (the store call has no status guard of its own; pausing anything
+    but a running workflow is treated as outside the operator's contract and skipped)."""
+    def f(run: Run) -> None:
+        if run.w.scalar("SELECT status FROM pipeline_executions WHERE id = ?", (run.wf_id,)) != "RUNNING":
+            run.__dict__["pause_skipped"] = run.__dict__.get("pause_skipped", 0) + 1
+            return
+        run.w.set_ctx(run.steps, "inject-pause")
+        run.w.store.pause(run.wf_id, user)
+    return f
+
+
+def inj_unpause() -> Callable[[Run], None]:
+    def f(run: Run) -> None:
+        run.w.set_ctx(run.steps, "inject-unpause")
+        run.w.orch.unpause(run.w.store.retrieve(run.wf_id))
+    return f
+
+
 def fifo_reference(spec: dict[str, Any], events: bool = False, **kw: Any) -> Run:
     return Run(spec, Schedule(), events=events, **kw).drain()
